@@ -142,7 +142,7 @@ class History(BaseEngine):
         p_obs = pick(rng, (0.2, 0.4, 0.6))
         for _ in range(rng.randint(2, 16)):
             if rng.random() < p_obs:
-                o = weighted(rng, (('iter', 3), ('length', 3), ('merged', 2), ('merged_mutate', 1), ('play', 1.5),
+                o = weighted(rng, (('iter', 3), ('iter_edit', 1.5), ('length', 3), ('merged', 2), ('merged_mutate', 1), ('play', 1.5),
                                    ('play_abandon', 1), ('play_start', 1), ('iter_start', 0.7), ('resume', 1.5),
                                    ('save_named', 0.7), ('save_noargs', 0.5),
                                    ('save', 1.5), ('save_fault', 0.7)))
@@ -234,6 +234,18 @@ class History(BaseEngine):
         try:
             if kind == 'iter':
                 return ('ok', [repr(m) for m in mf])
+            if kind == 'iter_edit':
+                # a lazy consumer that edits each message it is handed (they are its own copies) before asking for
+                # the next one: what it is handed must be what a consumer that edits nothing is handed
+                out = []
+                for m in mf:
+                    out.append(repr(m))
+                    if m.type == 'set_tempo':
+                        m.tempo = 1 + arg
+                    elif m.type == 'note_on':
+                        m.note = (m.note + 1) % 128
+                    m.time = 99.5
+                return ('ok', out)
             if kind == 'length':
                 return ('ok', repr(mf.length))
             if kind == 'merged':
@@ -644,7 +656,7 @@ class History(BaseEngine):
                 stats['fault:other_file_observed_while_suspended'] += 1
             before = self._contents(a)
             res_a = self._observe(a, kind, arg)
-            res_f = self._observe(self._fresh(model), kind, arg)
+            res_f = self._observe(self._fresh(model), 'iter' if kind == 'iter_edit' else kind, arg)
             log.ev('obs', kind, res_a[0], len(str(res_a)))
             if self._contents(a) != before:
                 raise Violation(f'observation-mutated:{kind}', f'{kind} changed the file\'s tracks')
@@ -652,7 +664,7 @@ class History(BaseEngine):
             if before != mod:
                 raise Violation('contents-diverged', f'after the edits the file holds {before!r}, the plain model '
                                                      f'{mod!r}')
-            if kind in ('iter', 'length') and res_a[0] == 'ok' and model['type'] != 2:
+            if kind in ('iter', 'length', 'iter_edit') and res_a[0] == 'ok' and model['type'] != 2:
                 # independent of any second mido object: exact tempo-map model of the current contents
                 from .playback import ENGINE as PB
                 mtracks = [MidiTrack(m.copy() for m in t) for t in model['tracks']]
